@@ -24,6 +24,7 @@ def run(ctx, crate):
     # a bar put into a (hidden) MultiProgress always gets that MultiProgress as its draw target
     from .c02 import rule_slot_identity
     rule_slot_identity(ctx, crate)
+    rule_target_setters(ctx, crate)
 
 
 def rule_remove_hides(ctx, crate, rule="R-REMOVE-HIDES"):
@@ -182,3 +183,28 @@ def rule_state_noninterference(ctx, crate, rule="R-STATE-NONINTERFERENCE"):
     ctx.floor(rule, n_src, 20, cfg, "draw-target / draw-result source call sites")
     ctx.floor(rule, n_sinks, 20, cfg, "logical-state sinks")
     ctx.extra.setdefault("state_writers", {})[cfg] = len(writes)
+
+
+def rule_target_setters(ctx, crate, rule="R-TARGET-SETTER-TOTAL"):
+    """A bar (or MultiProgress) that is *given* a hidden target is hidden from then on: the public `set_draw_target`
+    functions store their argument into the `draw_target` field on every path to a return - no state of the bar (finished,
+    hidden already, ...) makes them keep the old target and go on painting on it."""
+    cfg = crate.config
+    n = 0
+    for b in K.lib_bodies(crate):
+        if not b.api or K.meth(b.name) != "set_draw_target" or b.kind == "Closure":
+            continue
+        tp = [i for i in range(1, b.arg_count + 1) if "ProgressDrawTarget" in b.locals[i]["ty"]]
+        if len(tp) != 1:
+            continue
+        n += 1
+        stores = []
+        for i, j, s_ in b.assigns():
+            fs = place_fields(s_["lhs"])
+            if fs and fs[-1][2] == "draw_target" and tp[0] in b.slice_rv(i, s_, through_calls=False).locals | b.slice_rv(i, s_, through_calls=False).params():
+                stores.append(i)
+        ok = bool(stores) and b.must_pass([0], stores)
+        ctx.check(ok, rule, "stores-on-every-path:%s" % b.name.rsplit("::", 2)[-2], b.name, K.fn_loc(b),
+                  "set_draw_target installs the given target on every path",
+                  "%s can return without installing the given target (an early return): a bar that was handed a hidden target keeps painting on the old one" % b.name, cfg)
+    ctx.floor(rule, n, 2, cfg, "public set_draw_target functions")
